@@ -102,7 +102,7 @@ def check(chk: Check) -> None:
         selft, stt = ('param', om.self_param(F, q)), ('param', om.state_param(F, q))
         kinds = om.op_field_kinds(F, cls)
         opfields = [n for n, k in kinds.items() if k in ('op', 'oplist', 'pairlist')]
-        strs = om.dispatch_strings(F, q) if 'op' in kinds and kinds['op'] == 'str' else []
+        strs = om.op_specs(F, cls)
         # every op string the grammar can put into this class
         gram_ops = grammar_ops(F, cls)
         specs: List[Optional[str]] = sorted(set(strs) | set(gram_ops)) or [None]
@@ -151,6 +151,10 @@ def check(chk: Check) -> None:
                                     problems.append('self.%s is traversed as `%s`, not in list order' % (fld, show(it)))
                         else:
                             continue
+                        if e.kind == 'loop_skip' and k == 'pairlist':
+                            seq.append((fld, 0))        # an empty traversal stands for both components
+                            seq.append((fld, 1))
+                            continue
                         seq.append((fld, idx))
                     seqs.add(tuple(seq))
                     flds = [f for f, _ in seq]
@@ -197,26 +201,7 @@ def _pd(p: Path) -> str:
 
 def grammar_ops(F, cls: str) -> List[str]:
     """Operator strings the grammar can store in field `op` of class cls."""
-    T = C.templates(F)
-    lm = C.lexmodel(F)
-    out = []
-    for t in T.all():
-        terms = [t.result] + [freeze(e.value) for e in t.events if e.kind in ('store_attr',)] + \
-                [freeze(e.args) for e in t.events if e.kind == 'call']
-        for term in terms:
-            for c, flds in A.new_nodes(term):
-                if c != cls:
-                    continue
-                v = dict(flds).get('op')
-                if v is None:
-                    continue
-                if v[0] == 'const' and isinstance(v[1], str):
-                    out.append(v[1])
-                elif v[0] == 'tok':
-                    texts = lm.token_texts.get(v[2])
-                    if texts:
-                        out.extend(sorted(texts))
-    return sorted(set(out))
+    return om.grammar_op_strings(F, cls)
 
 
 def _check_lazy(F, word, role, paths, selft, stt, problems) -> None:
